@@ -37,7 +37,7 @@ SCOPE = {'evals': 0, 'bad': []}
 def gates(tier):
     return {'sequence_steps': 60000, 'sequences': 20000, 'raising_steps': 8000, 'steps_using_remembered_expect': 3000,
             'process_state_checks': 1200, 'config_fingerprint_checks': 400, 'scope_taps': 5000,
-            'shared_instance_steps': 1500, 'negpow_steps': 300, 'registered_default_cases': 20, 'debug_log_checks': 5000}
+            'shared_instance_steps': 1500, 'negpow_steps': 200, 'own_text_checks': 300, 'registered_default_cases': 20, 'debug_log_checks': 5000}
 
 
 # ----------------------------------------------------------------------------- specs
@@ -273,6 +273,9 @@ def run_configs(ctx):
         yield 'SumGrader(deleted constants)', M.SumGrader, {'answers': {'lower': '1', 'upper': '3', 'summand': 'n', 'summation_variable': 'n'},
                                                             'user_constants': {'pi': None, 'infty': None, 'c': 2.0}}, [['1', '3', 'n', 'n'], ['1', '3', 'pi', 'n']]
         yield 'MatrixGrader(deleted constants)', M.MatrixGrader, {'answers': 'x', 'variables': ['x'], 'user_constants': {'e': None, 'i': None}}, ['x', 'e']
+        yield 'FormulaGrader(metric suffixes)', M.FormulaGrader, {'answers': '2k+x', 'variables': ['x'], 'metric_suffixes': True}, ['x+2000', '2k', '3%']
+        yield 'SumGrader(metric suffixes)', M.SumGrader, {'answers': {'lower': '1', 'upper': '3', 'summand': 'n', 'summation_variable': 'n'},
+                                                           'metric_suffixes': True}, [['1', '3', 'n', 'n'], ['1', '0.003k', 'n', 'n']]
         yield 'FormulaGrader(numbered)', M.FormulaGrader, {'answers': 'a_{1}+x', 'variables': ['x'], 'numbered_vars': ['a'], 'sample_from': {'x': [1, 2]}},\
             ['x+a_{1}', 'a_{2}+x', 'a_{3}']
         yield 'LinearComparer', M.LinearComparer, {'equals': 1.0, 'proportional': 0.3}, None
@@ -331,8 +334,24 @@ def run_shared(ctx):
     import mitxgraders as M
     rng = ctx.rng
     for i in range(ctx.n(480, 8000)):
-        mode = i % 6
-        if mode == 5:
+        mode = i % 7
+        own_texts = None
+        if mode == 6:
+            # silent refusals (explain_* = None) of several StringGraders with different wrong_msg texts: beside the
+            # differential, ABSOLUTE law -- a grader only ever speaks with its own texts (a fault that pollutes every
+            # StringGrader of the process would pollute the freshly built reference too)
+            def build():
+                s1 = M.StringGrader(answers='cat', validation_pattern='[a-z]+', explain_validation=None, wrong_msg='W-ONE')
+                s2 = M.StringGrader(answers='dog', validation_pattern='[a-z]+', explain_validation=None, wrong_msg='')
+                s3 = M.StringGrader(accept_any=True, min_length=3, explain_minimums=None, wrong_msg='W-THREE')
+                return {'S1': s1, 'S2': s2, 'S3': s3,
+                        'L': M.ListGrader(answers=['cat', 'dog'], subgraders=[M.StringGrader(validation_pattern='[a-z]+', explain_validation=None, wrong_msg='W-L1'),
+                                                                              M.StringGrader(validation_pattern='[a-z]+', explain_validation=None, wrong_msg='W-L2')],
+                                          ordered=True)}
+            calls = {'S1': [(None, 'cat'), (None, 'c4t'), (None, 'dog'), (None, '!!')], 'S2': [(None, 'dog'), (None, 'd0g'), (None, 'cat')],
+                     'S3': [(None, 'ab'), (None, 'abc'), (None, '')], 'L': [(None, ['cat', 'dog']), (None, ['c4t', 'd0g']), (None, ['dog', 'cat'])]}
+            own_texts = {'S1': {'', 'W-ONE'}, 'S2': {''}, 'S3': {'', 'W-THREE'}, 'L': {'', 'W-L1', 'W-L2'}}
+        elif mode == 5:
             # one comparer OBJECT (author configuration) shared by several graders: what it was asked before is irrelevant
             def build():
                 comp = M.LinearComparer(equals=1.0, proportional=0.5, offset=0.4, linear=0.3)
@@ -395,13 +414,8 @@ def run_shared(ctx):
                      'B': [(None, 'n^2+' + tagc), (None, tagc + '+n^2'), (None, 'n*n+' + tagc)],
                      'S': [(None, ['abs(0-1)', 'floor(4.5)', 'n^2+' + tagc, 'n']), (None, ['1', '4', tagc + '+n^2', 'n']),
                            (None, ['abs(1)', 'floor(4.5)', 'n*n+' + tagc, 'n'])]}
-            # references are taken BEFORE any history, on freshly built graders, non-summation graders first
-            pre = {}
-            for nm in ('F', 'N', 'G', 'B', 'S'):
-                for (e0, s0) in calls[nm]:
-                    fr = build()
-                    ctx.seed_case('shared-ref', i, nm, repr(s0))
-                    pre[(nm, repr(s0))] = lib.call(ctx, fr[nm], e0, list(s0) if isinstance(s0, list) else s0)
+            # (references for this mode are computed on a brand-new parser object, see below: the shared parser never
+            # sees a string through the reference call, so what the history left in it is all that can differ)
         objs = build()
         length = rng.randint(4, 64 if not ctx.quick else 24)
         seq = []
@@ -424,7 +438,13 @@ def run_shared(ctx):
                 e_eff = e
             ctx.seed_case('shared', i, pos)
             if mode == 3:
-                ref = pre[(name, repr(s))]
+                from mitxgraders.helpers.calc import expressions as E_
+                shared_parser = E_.PARSER
+                E_.PARSER = E_.MathParser()
+                try:
+                    ref = lib.call(ctx, fresh[name], e_eff, s_)
+                finally:
+                    E_.PARSER = shared_parser
             else:
                 ref = lib.call(ctx, fresh[name], e_eff, s_)
             ctx.ev()
@@ -432,9 +452,16 @@ def run_shared(ctx):
             if mode == 2:
                 ctx.count('negpow_steps')
             seq.append((name, e, s))
+            if own_texts is not None and out.returned:
+                msgs_ = [en['msg'] for en in out.value['input_list']] if 'input_list' in out.value else [out.value['msg']]
+                ctx.count('own_text_checks')
+                if any(m_ not in own_texts[name] for m_ in msgs_):
+                    ctx.violation('C11:shared:message_of_another_grader:' + name, 'messages %r, this grader only has %r' % (msgs_, sorted(own_texts[name])),
+                                  {'history': seq[-10:]})
+                    break
             dbg = bool(getattr(objs[name], 'config', {}).get('debug')) or mode == 1
             if norm(out, dbg) != norm(ref, dbg):
-                key = ['shared_subgrader', 'debug_subgrader', 'negative_powers', 'shared_parser', 'per_call_variables', 'shared_comparer'][mode]
+                key = ['shared_subgrader', 'debug_subgrader', 'negative_powers', 'shared_parser', 'per_call_variables', 'shared_comparer', 'silent_refusals'][mode]
                 ctx.violation('C11:shared:%s:%s' % (key, name), 'step %d (%s, expect %r, input %r) gave %r; on freshly built graders it gives %r'
                               % (pos, name, e, s, norm(out, dbg), norm(ref, dbg)), {'history': seq[-10:], 'mode': key})
                 break
